@@ -25,6 +25,8 @@ SCOPE = [('crystal', 'maptranslation'), ('crystal', 'GroupOp.'), ('crystal', 'Cr
 
 def run(model, rep, tier):
     rep.explanation = __doc__.strip()
+    from ._common import caches_for
+    caches_for(model, rep, 'C18')
     rep.not_decided = 'group closure, isometry, and that the recorded permutation matches the geometry (numerical)'
     dim_generic(model, rep, SCOPE, min_functions=25)
     names_and_calls_resolve(model, rep, [s for s in SCOPE])
